@@ -6,11 +6,12 @@ V = os.path.dirname(os.path.dirname(os.path.abspath(__file__)))
 needs = json.load(open(os.path.join(V, "tools", "seeded_needs.json")))
 matrix = {}
 cur = None
-for f in sorted(glob.glob("/tmp/mutant_eval/summary_*.txt")) + sorted(glob.glob("/tmp/mutant_eval/old2_summary_*.txt")):
+OFFSET = int(os.environ.get("WAVE_OFFSET", "0"))  # wave 2 deliveries k=1..3 are stored as ids k+3
+for f in sorted(glob.glob("/tmp/mutant_eval/old/summary_*.txt")) + sorted(glob.glob("/tmp/mutant_eval/summary_*.txt")):
     for l in open(f):
         m = re.match(r"=== (C\d+)/(\d) checks", l)
         if m:
-            cur = f"{m.group(1)}_{m.group(2)}"; matrix.setdefault(cur, {"tests": None, "demo_mutant": None, "demo_pristine": None, "checks": {}}); continue
+            cur = f"{m.group(1)}_{int(m.group(2)) + OFFSET}"; matrix.setdefault(cur, {"tests": None, "demo_mutant": None, "demo_pristine": None, "checks": {}}); continue
         if cur is None: continue
         if l.startswith("demo pristine exit="): matrix[cur]["demo_pristine"] = int(l.strip().split("=")[1])
         if l.startswith("demo mutant exit="): matrix[cur]["demo_mutant"] = int(l.strip().split("=")[1])
@@ -18,13 +19,14 @@ for f in sorted(glob.glob("/tmp/mutant_eval/summary_*.txt")) + sorted(glob.glob(
         m = re.match(r"check (C\d+) exit=(\d+)", l)
         if m: matrix[cur]["checks"][m.group(1)] = "VIOLATION" if m.group(2) == "1" else ("silent" if m.group(2) == "0" else "exit " + m.group(2))
 confirm = {}
-if os.path.exists("/tmp/repo_confirm/summary.txt"):
-    for l in open("/tmp/repo_confirm/summary.txt"):
+for cf in glob.glob("/tmp/repo_confirm/summary*.txt"):
+    for l in open(cf):
         m = re.match(r"(C\d+)/(\d) check=(C\d+) exit=(\d+) violations=(\d+) first:\s*(.*)", l)
         if m: confirm[f"{m.group(1)}_{m.group(2)}"] = {"check": m.group(3), "exit": int(m.group(4)), "violations": int(m.group(5)), "first_violation": m.group(6)[:300]}
 for mid, (what, need) in sorted(needs.items()):
     d = os.path.join(V, "seeded", mid)
     if not os.path.isdir(d): continue
+    if OFFSET and int(mid.split("_")[1]) <= OFFSET: continue  # earlier waves keep their meta.json
     mx = matrix.get(mid, {})
     meta = {
         "id": mid,
